@@ -21,7 +21,7 @@ from . import core
 VERIF_DIR = os.path.dirname(os.path.dirname(os.path.abspath(__file__)))
 OUT_DIR = os.path.join(VERIF_DIR, 'out')
 REPLAY_DIR = os.path.join(OUT_DIR, 'replays')
-EVIDENCE_DIR = os.path.join(VERIF_DIR, 'evidence')
+EVIDENCE_DIR = os.environ.get('VERIF_EVIDENCE_DIR') or os.path.join(VERIF_DIR, 'evidence')
 KNOWN_FILE = os.path.join(VERIF_DIR, 'known_findings.json')
 
 BLOCK = 25            # run indices per task
@@ -166,7 +166,10 @@ def merge_stats(total, stats):
             d = total.setdefault(k, {})
             merge_stats(d, v)
         elif isinstance(v, (int, float)) and not isinstance(v, bool):
-            total[k] = total.get(k, 0) + v
+            if str(k).startswith('max_'):
+                total[k] = max(total.get(k, 0), v)
+            else:
+                total[k] = total.get(k, 0) + v
 
 
 def write_replay(pid, seed, tier, case, viol):
